@@ -1,5 +1,7 @@
 import WtfModel.Model.Search
 import WtfModel.Model.NormQ
+import WtfModel.Model.Legacy0
+import WtfModel.Gen.Constants
 import Driver.Util
 
 /-!
@@ -113,6 +115,10 @@ def step (d : DS) (l : String) : DS × String :=
                               platforms := pls, noCross := boolOf nc }
       (d, fmtResults (search (tuning d) d.db.toList q o))
     | _, _, _, _, _, _, _ => (d, "bad-op")
+  | ["bufcap", t, l] =>
+    match intOf? t, intOf? l with
+    | some t, some l => (d, toString (Legacy.resultsBufferCap Gen.Constants.ResultsBufferMultiplier t l))
+    | _, _ => (d, "bad-op")
   | ["normq", h] => match Bytes.ofHex h with
     | some b => (d, "nq " ++ Bytes.toHex (NormQ.normQ d.ri b))
     | none => (d, "bad-op")
